@@ -105,6 +105,9 @@ func genStream(r *gen.RNG, n int) streamCase {
 	case 1:
 		s.tkind = "arbitrary"
 		s.trailer = r.Bytes(1 + r.Intn(12))
+		if len(s.trailer) > 1 {
+			s.trailer[1] &= 0x7f // a one-byte remaining length: arbitrary bytes must not make ReadPacket allocate megabytes
+		}
 	default:
 		s.tkind = "partial-frame"
 		f := genFrame(r, gen.Small)
@@ -124,6 +127,9 @@ func (c06) Run(c *run.Ctx, phase, idx int) {
 		s := streamCase{frames: []wireFrame{frameOfType(r, a), frameOfType(r, b)}, tkind: "none"}
 		if idx >= 256 && r.Bool() {
 			s.tkind, s.trailer = "arbitrary", r.Bytes(1+r.Intn(5))
+			if len(s.trailer) > 1 {
+				s.trailer[1] &= 0x7f
+			}
 		}
 		c.Count("adjacency", fmt.Sprintf("%d-%d", a, b), 1)
 		for _, rk := range readerKinds {
